@@ -16,6 +16,10 @@ Import-free, total, computable.
       mirror `toDoc` of `doc.rs` for that core, including the way `doc.rs` treats a trailing comma
       (`Comma<E>` of the grammar): the comma token is not emitted and nobody fetches its comments.
       `toDocFixed` is the variant that emits the comments of a dropped trailing comma (proposed repair).
+  §4  the policy level with resolved tokens: `Annotation`, `VariableDef` (`is` type, `==`/`in` constraint), `Cond`
+      (`when`/`unless` with braces, hoisting of the body's leading comments), `Policy` (scope with its commas, the
+      trailing comma whose comments are kept since /repo commit e8fc4bb, the bare / constrained scope layouts) —
+      `policyToDoc` — and the joining of policies + end-of-file comments of fmt.rs (`renderPolicies`).
 -/
 namespace Cedar.Fmt
 
@@ -263,7 +267,7 @@ def fits (w : Nat) : Nat → List Cmd → Bool
   | _, (_, false, .softline) :: _ => true
   | _, (_, flat, .hardline) :: _ => !flat
   | col, (i, m, .nest j d) :: r => fits w col ((i + j, m, d) :: r)
-  | col, (i, _, .group d) :: r => fits w col ((i, true, d) :: r)
+  | col, (i, m, .group d) :: r => fits w col ((i, m, d) :: r)   -- `fitting` of pretty 0.12 keeps the mode (the head group is flat, groups of the rest are in break mode)
   | col, (i, m, .cat a b) :: r => fits w col ((i, m, a) :: (i, m, b) :: r)
 termination_by _ cs => cmdsSize cs
 decreasing_by all_goals (simp only [cmdsSize, Doc.size]; omega)
@@ -426,6 +430,20 @@ inductive Accs where
   | index (l : WTok) (e : Cst) (r : WTok) (rest : Accs)
 end
 
+/-- `RcDoc::intersperse(member.access, line_())`: a soft line BETWEEN two accesses, none after the last -/
+def accSep : Accs → Doc
+  | .nil => .nil
+  | _ => .softline
+
+def Args.isNil : Args → Bool
+  | .nil => true
+  | _ => false
+
+/-- the arguments of a method call: nothing between the parentheses of `f()`, otherwise
+    `line_().append(args).nest(iw).append(line_())` -/
+def callArgsDoc (iw : Nat) (isNil : Bool) (argsDoc : Doc) : Doc :=
+  if isNil then .nil else .nest iw (.softline ++ argsDoc) ++ .softline
+
 def opsDoc : List WTok → Doc
   | [] => .nil
   | t :: ts => tokDoc t ++ opsDoc ts
@@ -475,10 +493,10 @@ def chainDocW (fixed : Bool) (iw : Nat) (k : ChainKind) : Chain → Doc
     | .path => tokDoc op ++ (toDocW fixed iw e ++ chainDocW fixed iw k rest)
 def accsDocW (fixed : Bool) (iw : Nat) : Accs → Doc
   | .nil => .nil
-  | .field dot name rest => tokDoc dot ++ (tokDoc name ++ (.softline ++ accsDocW fixed iw rest))
+  | .field dot name rest => tokDoc dot ++ (tokDoc name ++ (accSep rest ++ accsDocW fixed iw rest))
   | .call l args r rest =>
-    tokDoc l ++ (.nest iw (.softline ++ argsDocW fixed iw args) ++ (.softline ++ (tokDoc r ++ (.softline ++ accsDocW fixed iw rest))))
-  | .index l e r rest => tokDoc l ++ (toDocW fixed iw e ++ (tokDoc r ++ (.softline ++ accsDocW fixed iw rest)))
+    tokDoc l ++ (callArgsDoc iw args.isNil (argsDocW fixed iw args) ++ (tokDoc r ++ (accSep rest ++ accsDocW fixed iw rest)))
+  | .index l e r rest => tokDoc l ++ (toDocW fixed iw e ++ (tokDoc r ++ (accSep rest ++ accsDocW fixed iw rest)))
 end
 
 /-- doc.rs as it is -/
@@ -560,5 +578,234 @@ def accsNoCTC : Accs → Bool
   | .call _ args _ rest => argsNoCTC args && accsNoCTC rest
   | .index _ e _ rest => noCommentedTrailingComma e && accsNoCTC rest
 end
+
+/-! ## §4 the policy level: `Annotation`, `VariableDef`, `Cond`, `Policy` of doc.rs, and `policies_str_to_pretty` -/
+
+/-- `@key` or `@key("value")` (cst.rs `Annotation`); every terminal is a resolved wrapped token -/
+structure AnnotCst where
+  atT : WTok
+  key : WTok
+  /-- `(` string `)` -/
+  value : Option (WTok × WTok × WTok)
+
+/-- `principal [is T] [op e]` (cst.rs `VariableDef`; the obsolete `var : Type` form does not reach the formatter:
+    `to_policyset` rejects it) -/
+structure VarDefCst where
+  var : WTok
+  /-- `is` and the entity type (`Node<Add>`) -/
+  isPart : Option (WTok × Cst)
+  /-- `==` / `in` / … and the right-hand side -/
+  ineq : Option (WTok × Cst)
+
+/-- `when { e }` / `unless { e }` (cst.rs `Cond`; `expr = none` is the empty body `when {}`) -/
+structure CondCst where
+  kw : WTok
+  lb : WTok
+  expr : Option Cst
+  rb : WTok
+
+/-- `annotations effect ( principal… , action… , resource… [,] ) conds ;` (cst.rs `PolicyImpl`) -/
+structure PolicyCst where
+  annots : List AnnotCst
+  effect : WTok
+  lp : WTok
+  principal : VarDefCst
+  comma1 : WTok
+  action : VarDefCst
+  comma2 : WTok
+  resource : VarDefCst
+  /-- the optional trailing comma of the scope (`Comma<VariableDef>` of the grammar) -/
+  trailingComma : Option WTok
+  rp : WTok
+  conds : List CondCst
+  semi : WTok
+
+/-- the token after `consume_leading_comment` / `consume_comment` took its leading comments -/
+def WTok.noLead (t : WTok) : WTok := { t with leading := [] }
+
+/-- the leading comments of the first token of an expression: what
+    `get_leading_comment_at_start(expr.loc)` finds (token.rs `consume_leading_comment`) -/
+def firstLeading : Cst → List (List Char)
+  | .leaf t => t.leading
+  | .paren l _ _ => l.leading
+  | .unary [] e => firstLeading e
+  | .unary (t :: _) _ => t.leading
+  | .chain _ first _ => firstLeading first
+  | .rel a _ _ => firstLeading a
+  | .isIn a _ _ _ _ => firstLeading a
+  | .ite i _ _ _ _ _ => i.leading
+  | .brack l _ _ => l.leading
+  | .recInit k _ _ => firstLeading k
+  | .member item _ => firstLeading item
+
+/-- … and the expression as the later `expr.to_doc` sees it: the leading comments of its first token are gone -/
+def clearFirstLeading : Cst → Cst
+  | .leaf t => .leaf t.noLead
+  | .paren l e r => .paren l.noLead e r
+  | .unary [] e => .unary [] (clearFirstLeading e)
+  | .unary (t :: ts) e => .unary (t.noLead :: ts) e
+  | .chain k first rest => .chain k (clearFirstLeading first) rest
+  | .rel a op b => .rel (clearFirstLeading a) op b
+  | .isIn a isT ty inT e => .isIn (clearFirstLeading a) isT ty inT e
+  | .ite i c t a e b => .ite i.noLead c t a e b
+  | .brack l args r => .brack l.noLead args r
+  | .recInit k colon v => .recInit (clearFirstLeading k) colon v
+  | .member item accs => .member (clearFirstLeading item) accs
+
+/-- `impl Doc for Node<Option<Annotation>>` -/
+def annotDoc (a : AnnotCst) : Doc :=
+  tokDoc a.atT ++ (tokDoc a.key ++
+    (match a.value with
+     | none => .hardline
+     | some (l, v, r) => tokDoc l ++ (tokDoc v ++ tokDoc r .hardline)))
+
+/-- `RcDoc::intersperse(annotations, nil)` -/
+def annotsDoc : List AnnotCst → Doc
+  | [] => .nil
+  | a :: as => annotDoc a ++ annotsDoc as
+
+/-- the `is_doc` of `VariableDef`: the type's own `to_doc` has already consumed the comment of its first token,
+    so the `add_comment` around it sees an empty comment -/
+def isPartDoc (iw : Nat) : Option (WTok × Cst) → Doc
+  | none => .nil
+  | some (isT, ty) =>
+    .group (.nest iw (.group (.line ++ tokDoc isT) ++ (.line ++ addComment (toDocFixed iw ty) [] [] .nil)))
+
+/-- `impl Doc for Node<Option<VariableDef>>` -/
+def varDefDoc (iw : Nat) (v : VarDefCst) : Doc :=
+  match v.ineq with
+  | some (op, rhs) =>
+    leadingDoc v.var.leading ++
+      .group (.group (.text (.tok v.var.text) ++ (trailingDoc v.var.trailing .nil ++ (isPartDoc iw v.isPart ++
+          (.line ++ tokDoc op)))) ++
+        .nest iw (.line ++ toDocFixed iw rhs))
+  | none => tokDoc v.var ++ isPartDoc iw v.isPart
+
+/-- `impl Doc for Node<Option<Cond>>`: the comments of `when`, `{`, `}` are fetched first (so the keyword's own
+    `to_doc` sees an empty comment), the leading comments of the body's first token are hoisted out of its group -/
+def condDoc (iw : Nat) (c : CondCst) : Doc :=
+  let kwDoc := addComment (.text (.tok c.kw.text)) [] [] .nil
+  let rbDoc := tokDoc c.rb
+  match c.expr with
+  | some e =>
+    leadingDoc c.kw.leading ++
+      .group (kwDoc ++ (trailingDoc c.kw.trailing .line ++
+        (leadingDoc c.lb.leading ++ (.text (.tok c.lb.text) ++
+          .group (.nest iw (trailingDoc c.lb.trailing .line ++
+              (leadingDoc (firstLeading e) ++ .group (toDocFixed iw (clearFirstLeading e)))) ++
+            (.line ++ rbDoc))))))
+  | none =>
+    leadingDoc c.kw.leading ++
+      .group (kwDoc ++ (trailingDoc c.kw.trailing .line ++
+        (leadingDoc c.lb.leading ++ .group (.text (.tok c.lb.text) ++ (trailingDoc c.lb.trailing .line ++ rbDoc)))))
+
+/-- `RcDoc::intersperse(conds, hardline)` -/
+def condsDoc (iw : Nat) : List CondCst → Doc
+  | [] => .nil
+  | [c] => condDoc iw c
+  | c :: cs => condDoc iw c ++ (.hardline ++ condsDoc iw cs)
+
+/-- `get_dropped_token_comment_doc(get_trailing_comma_comment(..))`: the comments of the scope's trailing comma
+    (`Comment::default()` when there is none) without the comma itself — /repo commit e8fc4bb -/
+def droppedCommaDoc : Option WTok → Doc
+  | none => addComment .nil [] [] .nil
+  | some t => commentsOnlyDoc t
+
+def VarDefCst.isBare (v : VarDefCst) : Bool := v.ineq.isNone && v.isPart.isNone
+
+/-- the `vars_doc` of `impl Doc for Node<Option<Policy>>`: on one line (if it fits) when no scope variable is
+    constrained, otherwise one variable per line -/
+def scopeDoc (iw : Nat) (p : PolicyCst) : Doc :=
+  let resourceDoc := varDefDoc iw p.resource ++ droppedCommaDoc p.trailingComma
+  if p.principal.isBare && p.action.isBare && p.resource.isBare then
+    .group (.nest iw (varDefDoc iw p.principal ++ (tokDoc p.comma1 .space ++ (varDefDoc iw p.action ++
+      (tokDoc p.comma2 .space ++ resourceDoc)))))
+  else
+    .nest iw (.hardline ++ (varDefDoc iw p.principal ++ (tokDoc p.comma1 .hardline ++ (varDefDoc iw p.action ++
+      (tokDoc p.comma2 .hardline ++ resourceDoc))))) ++ .hardline
+
+/-- `impl Doc for Node<Option<Policy>>` -/
+def policyToDoc (iw : Nat) (p : PolicyCst) : Doc :=
+  annotsDoc p.annots ++
+    ((leadingDoc p.effect.leading ++ .group (tokDoc p.effect.noLead ++ (.line ++ tokDoc p.lp))) ++
+      (scopeDoc iw p ++ (tokDoc p.rp (if p.conds.isEmpty then .nil else .hardline) ++
+        (condsDoc iw p.conds ++ tokDoc p.semi))))
+
+/-- one document for a policy set (policies separated by a blank line); `renderPolicies` is what fmt.rs does -/
+def policiesToDoc (iw : Nat) : List PolicyCst → Doc
+  | [] => .nil
+  | [p] => policyToDoc iw p
+  | p :: ps => policyToDoc iw p ++ (.hardline ++ (.hardline ++ policiesToDoc iw ps))
+
+def eofItems : List (List Char) → List Item
+  | [] => []
+  | c :: cs => .atom (.com c) :: .nl 0 :: eofItems cs
+
+def joinPolicies : List (List Item) → List Item
+  | [] => []
+  | [x] => x
+  | x :: xs => x ++ (.nl 0 :: .nl 0 :: joinPolicies xs)
+
+/-- `policies_str_to_pretty` at the layout level, for an arbitrary flat/break chooser: every policy is laid out
+    on its own (`tree_to_pretty`), the layouts are joined with `"\n\n"`, a final newline and the end-of-file
+    comments (one per line) follow.  (`remove_empty_lines` works on the string and only deletes blank lines.) -/
+def renderPoliciesWith (ch : Nat → List Cmd → Bool) (iw : Nat) (ps : List PolicyCst) (eof : List (List Char)) : List Item :=
+  joinPolicies (ps.map (fun p => bestWith ch 0 [(0, false, policyToDoc iw p)])) ++ (.nl 0 :: eofItems eof)
+
+def renderPolicies (w iw : Nat) (ps : List PolicyCst) (eof : List (List Char)) : List Item :=
+  renderPoliciesWith (fits w) iw ps eof
+
+/-! ### the source atoms of the policy level -/
+
+def annotAtoms (a : AnnotCst) : List Atom :=
+  wtokAtoms a.atT ++ wtokAtoms a.key ++
+    (match a.value with
+     | none => []
+     | some (l, v, r) => wtokAtoms l ++ wtokAtoms v ++ wtokAtoms r)
+
+def annotsAtoms : List AnnotCst → List Atom
+  | [] => []
+  | a :: as => annotAtoms a ++ annotsAtoms as
+
+def varDefAtomsW (kt kc : Bool) (v : VarDefCst) : List Atom :=
+  wtokAtoms v.var ++
+    (match v.isPart with
+     | none => []
+     | some (isT, ty) => wtokAtoms isT ++ cstAtomsW kt kc ty) ++
+    (match v.ineq with
+     | none => []
+     | some (op, rhs) => wtokAtoms op ++ cstAtomsW kt kc rhs)
+
+def condAtomsW (kt kc : Bool) (c : CondCst) : List Atom :=
+  wtokAtoms c.kw ++ wtokAtoms c.lb ++
+    (match c.expr with
+     | none => []
+     | some e => cstAtomsW kt kc e) ++ wtokAtoms c.rb
+
+def condsAtomsW (kt kc : Bool) : List CondCst → List Atom
+  | [] => []
+  | c :: cs => condAtomsW kt kc c ++ condsAtomsW kt kc cs
+
+/-- the atoms (tokens and comments) of a policy in source order; flags as for `cstAtomsW`:
+    (true, true) = the source; (false, true) = the source minus the `,` TOKENS in trailing position (of the scope
+    and of every `Comma<E>` inside the expressions), all comments kept -/
+def policyAtomsW (kt kc : Bool) (p : PolicyCst) : List Atom :=
+  annotsAtoms p.annots ++ wtokAtoms p.effect ++ wtokAtoms p.lp ++
+    varDefAtomsW kt kc p.principal ++ wtokAtoms p.comma1 ++
+    varDefAtomsW kt kc p.action ++ wtokAtoms p.comma2 ++
+    varDefAtomsW kt kc p.resource ++ trailingCommaAtoms kt kc p.trailingComma ++
+    wtokAtoms p.rp ++ condsAtomsW kt kc p.conds ++ wtokAtoms p.semi
+
+/-- the source of a policy: every token and every comment, in order -/
+def policyAtoms (p : PolicyCst) : List Atom := policyAtomsW true true p
+
+def policiesAtomsW (kt kc : Bool) : List PolicyCst → List Atom
+  | [] => []
+  | p :: ps => policyAtomsW kt kc p ++ policiesAtomsW kt kc ps
+
+/-- the source of a policy set: the policies, then the end-of-file comments -/
+def policySetAtomsW (kt kc : Bool) (ps : List PolicyCst) (eof : List (List Char)) : List Atom :=
+  policiesAtomsW kt kc ps ++ eof.map Atom.com
+
 
 end Cedar.Fmt
